@@ -43,6 +43,7 @@ FORMS = {
     "sum0": (1, True, lambda mg, x, c: mg.sum(x, axis=0, keepdims=True, constant=c), lambda x: np.sum(x, axis=0, keepdims=True)),
     "reshape": (1, True, lambda mg, x, c: mg.reshape(x, (-1, 1), constant=c), lambda x: np.reshape(x, (-1, 1))),
     "rev": (1, False, lambda mg, x, c: x[::-1], lambda x: x[::-1]),
+    "addout": (3, True, None, None),  # mg.add(x, y, out=<tensor target>, constant=c): the target keeps its own flag
     "iadd": (2, False, None, None),  # x += y on a tensor target
     "set0": (2, False, None, None),  # x[0] = y on a tensor target
 }
@@ -58,7 +59,7 @@ def programs(depth, n_vals=2):
             for ops in itertools.product(range(nv), repeat=ar):
                 for c in (CONSTS if takes_c else [None]):
                     st = (form, ops, c)
-                    creates = form not in ("iadd", "set0")
+                    creates = form not in ("iadd", "set0", "addout")
                     for rest in rec(k - 1, nv + (1 if creates else 0)):
                         yield (st,) + rest
     for d in range(1, depth + 1):
@@ -90,6 +91,27 @@ def execute(prog, kinds, replace_constants):
     recs = []
     for form, ops, c in prog:
         args = [vals[i] for i in ops]
+        if form == "addout":
+            xa, ya, tgt = args
+            if not is_tensor(tgt):
+                raise Skip("out= target must be a tensor")
+            flag = tgt.constant
+            ref_t = np.array(data_of(tgt))
+            try:
+                np.add(data_of(xa), data_of(ya), out=ref_t)
+            except Exception as e:
+                del e
+                raise Skip("numpy rejects this out= call")
+            must = (not np.issubdtype(ref_t.dtype, np.floating)) and c is False
+            try:
+                mg.add(xa, ya, out=tgt, constant=c)
+            except Exception as e:
+                eb = base.exc_brief(e)
+                del e
+                recs.append(dict(kind="inplace", raised=eb, flag=flag, tgt=ops[2], must_raise=must))
+                return vals, recs, "raised"
+            recs.append(dict(kind="inplace", raised=None, flag=flag, tgt=ops[2], must_raise=must))
+            continue
         if form in ("iadd", "set0"):
             tgt, val = args
             if not is_tensor(tgt):
@@ -165,6 +187,8 @@ def execute(prog, kinds, replace_constants):
 def check(cell):
     import mygrad as mg
 
+    if cell[0] == "nary":
+        return check_nary(cell)
     kinds, prog = cell
     try:
         vals, recs, status = execute(prog, kinds, False)
@@ -174,6 +198,10 @@ def check(cell):
     vi = 2
     for st, rec in zip(prog, recs):
         if rec["kind"] == "inplace":
+            if rec.get("must_raise"):
+                if rec["raised"] is None:
+                    return ("not_rejected", "integer-valued out= target with constant=False accepted in `%s`" % (st,))
+                return None
             if rec["raised"] is not None:
                 return ("exception", "in-place statement raised %s: %s" % rec["raised"])
             t = vals[rec["tgt"]]
@@ -241,7 +269,77 @@ def check(cell):
     return None
 
 
+NARY = {
+    "multi_matmul3": ([(2, 2), (2, 2), (2,)], lambda mg, a: mg.multi_matmul(a)),
+    "multi_matmul3_lead1d": ([(2,), (2, 2), (2, 2)], lambda mg, a: mg.multi_matmul(a)),
+    "multi_matmul4": ([(2, 2), (2, 2), (2, 2), (2,)], lambda mg, a: mg.multi_matmul(a)),
+    "add_sequence3": ([(2,), (2,), (2,)], lambda mg, a: mg.add_sequence(*a)),
+    "multiply_sequence3": ([(2,), (2,), (2,)], lambda mg, a: mg.multiply_sequence(*a)),
+    "concatenate3": ([(2,), (2,), (2,)], lambda mg, a: mg.concatenate(a)),
+    "stack3": ([(2,), (2,), (2,)], lambda mg, a: mg.stack(a)),
+    "einsum3": ([(2, 2), (2, 2), (2,)], lambda mg, a: mg.einsum("ij,jk,k->i", *a)),
+    "where": ([(2,), (2,)], lambda mg, a: mg.where(np.array([True, False]), *a)),
+    "matmul": ([(2, 2), (2,)], lambda mg, a: mg.matmul(*a)),
+    "maximum": ([(2,), (2,)], lambda mg, a: mg.maximum(*a)),
+    "clip3": ([(2,), (), ()], lambda mg, a: mg.clip(a[0], mg.minimum(a[1], a[2]), mg.maximum(a[1], a[2]) + 3.0)),
+}
+NARY_KINDS = ["fvar", "fconst", "nd"]
+
+
+def nary_cells():
+    for name, (shapes, _) in NARY.items():
+        for kinds in itertools.product(NARY_KINDS, repeat=len(shapes)):
+            for c in CONSTS:
+                yield ("nary", name, kinds, c)
+
+
+def check_nary(cell):
+    import mygrad as mg
+    from specs.ops import vals
+
+    _, name, kinds, c = cell
+    shapes, fn = NARY[name]
+
+    def build(replace):
+        out = []
+        for i, (sh, k) in enumerate(zip(shapes, kinds)):
+            v = vals(sh, 1 + 5 * i)
+            if k == "nd" or (replace and k == "fconst"):
+                out.append(v.copy())
+            else:
+                out.append(mg.tensor(v, constant=(k == "fconst")))
+        return out
+
+    A = build(False)
+    try:
+        r = fn(mg, A) if c is None else None
+        if c is not None:
+            return ("skip", "constant= is exercised on the function forms of the program cells")
+    except Exception as e:
+        eb = base.exc_brief(e)
+        del e
+        return ("exception", "%s raised %s: %s" % ((name,) + eb))
+    expect = all(k != "fvar" for k in kinds)
+    if r.constant is not expect:
+        return ("constant_flag", "%s with operand kinds %r: result.constant is %r" % (name, kinds, r.constant))
+    r.backward()
+    for t, k in zip(A, kinds):
+        if k == "fconst" and t.grad is not None:
+            return ("grad_on_constant", "%s: a constant operand exposes a gradient" % name)
+        if k == "fvar" and t.grad is None:
+            return ("grad_none", "%s with operand kinds %r: a non-constant operand received no gradient" % (name, kinds))
+    base.reset_mygrad()
+    B = build(True)
+    rb = fn(mg, B)
+    rb.backward()
+    for ta, tb, k in zip(A, B, kinds):
+        if k == "fvar" and not np.allclose(ta.grad, tb.grad, rtol=1e-12, atol=0):
+            return ("differential", "%s %r: gradient differs when the constant tensors are replaced by arrays" % (name, kinds))
+    return None
+
+
 def cells(tier):
+    yield from nary_cells()
     depth = BOUNDS[tier]
     for ka in LEAF_KINDS:
         for kb in LEAF_KINDS:
@@ -250,16 +348,18 @@ def cells(tier):
 
 
 def steps(cell):
-    return len(cell[1])
+    return 1 if cell[0] == "nary" else len(cell[1])
 
 
 def nontrivial(cell):
+    if cell[0] == "nary":
+        return True
     kinds, prog = cell
     return any(k in ("fconst", "itens", "btens", "nd", "sc") for k in kinds) or any(st[2] is not None for st in prog)
 
 
 def outcome(cell):
-    return "ok:%d statements" % len(cell[1])
+    return "ok:nary" if cell[0] == "nary" else "ok:%d statements" % len(cell[1])
 
 
 def plan(tier, seed):
@@ -294,6 +394,9 @@ def render_prog(kinds, prog):
         if form == "set0":
             lines.append("%s[0] = %s" % tuple(a))
             continue
+        if form == "addout":
+            lines.append("mg.add(%s, %s, out=%s, constant=%r)" % (a[0], a[1], a[2], c))
+            continue
         out = "v%d" % (len(names) - 2)
         call = {"add": "mg.add(%s, %s, constant=%r)", "mul": "mg.multiply(%s, %s, constant=%r)", "neg": "mg.negative(%s, constant=%r)",
                 "sum0": "mg.sum(%s, axis=0, keepdims=True, constant=%r)", "reshape": "mg.reshape(%s, (-1, 1), constant=%r)", "rev": "%s[::-1]"}[form]
@@ -307,8 +410,8 @@ def finalize(v):
     from mc import conf
 
     me = __import__("harness.C10", fromlist=["x"])
-    me.script = lambda cell, f: render_prog(cell[0], cell[1]) + "# %s: %s\n" % (f[0], f[1])
-    me.signature = lambda cell, f: base.stable_hash((tuple(st[0] for st in cell[1]), tuple(st[2] for st in cell[1]), f[0], f[1][:30]))
+    me.script = lambda cell, f: ("# n-ary cell %r\n# %s: %s\n" % (cell, f[0], f[1])) if cell[0] == "nary" else render_prog(cell[0], cell[1]) + "# %s: %s\n" % (f[0], f[1])
+    me.signature = lambda cell, f: base.stable_hash((cell[1], f[0])) if cell[0] == "nary" else base.stable_hash((tuple(st[0] for st in cell[1]), tuple(st[2] for st in cell[1]), f[0], f[1][:30]))
     return conf.finalize_cell(me, v)
 
 
@@ -317,6 +420,8 @@ def m_constant_view_reports_grad(v):
     view-gradient path after backward."""
     f = v.get("failure") or {}
     cell = (v.get("case") or {}).get("cell") or [None, []]
+    if cell[0] == "nary":
+        return False
     return f.get("kind") == "grad_on_constant" and any(st[0] == "reshape" and st[2] is True for st in cell[1])
 
 
